@@ -87,6 +87,14 @@ def contracts():
                        ensures=["seq_len(ctx.expand_stack) == 1", "ctx.expand_stack[0] == title"] +
                                [f"len(ctx.{l}) == 0" for l in lists] +
                                ["ctx.section is None", "ctx.subsection is None"]))
+    # the location that the recorders put into their records: start_section sets the section and always clears the
+    # subsection; start_subsection sets the subsection only
+    cs.append(Contract(target="core:Wtp.start_section", mode="frame", prop="C16", params={"title": "str"},
+                       ensures=["ctx.section == title", "ctx.subsection is None", "ctx.expand_stack == old(ctx.expand_stack)"]))
+    cs.append(Contract(target="core:Wtp.start_section", variant="none", mode="frame", prop="C16", params={"title": "none"},
+                       ensures=["ctx.section is None", "ctx.subsection is None"]))
+    cs.append(Contract(target="core:Wtp.start_subsection", mode="frame", prop="C16", params={"title": "str"},
+                       ensures=["ctx.subsection == title", "ctx.expand_stack == old(ctx.expand_stack)"]))
     cs.append(Contract(target="core:Wtp.__init__", mode="frame", prop="C16",
                        modifies=["expand_stack"] + lists,
                        ensures=["seq_len(ctx.expand_stack) == 0"] + [f"len(ctx.{l}) == 0" for l in lists]))
